@@ -389,6 +389,11 @@ let () = register "ctable" (fun args ->
     | _ -> "-" in
   (model, oracle))
 
+(* ---- C19: concurrent readers (validation of the effect translator) ---- *)
+let () = register "concurrent" (fun args ->
+  let impl = if L.length args < 2 then "ok" else L.nth args 1 in
+  ("ok", if impl = "ok" then "ok" else "bad:concurrent results differ from sequential: " ^ impl))
+
 (* ---- hostile bytes: C18 ---- *)
 let () = register "hostile" (fun args ->
   let f = S.split_on_char '|' (L.nth args 0) in
